@@ -155,7 +155,7 @@ def _child(i, sock_path, body, watch, extra_env):
 
 
 def run_phase(body, nprocs, prefix, exec_dir, watch, kill=None, extra_env=None,
-              block_timeout=4.0, deadlock_timeout=8.0, id_base=0):
+              block_timeout=3.0, deadlock_timeout=6.0, id_base=0, wake_timeout=0.4):
     """
     Run `nprocs` controlled processes executing body(i).  `prefix` = choices for the first steps,
     afterwards choice 0.  kill = (victim id, step k): when the controller is about to grant step k
@@ -332,6 +332,11 @@ def run_phase(body, nprocs, prefix, exec_dir, watch, kill=None, extra_env=None,
             if late:
                 ph.blocked_seen = True
                 blocked.update(late)
+            if blocked:
+                # make waiting visible: a blocked (polling / lock-waiting) thread whose condition this step
+                # made true wakes up within its polling interval and runs to its next point; give it that
+                # time so that the enabled set after every step is well defined (replayable)
+                settle(list(blocked), wake_timeout)
         # drain: results written just before exit
         t0 = time.time()
         while conns and time.time() - t0 < 1.0:
